@@ -378,6 +378,28 @@ class Cut:
             raise Undecided("%s: statement at /%s/ has no end" % (self.desc, pattern))
         self.text = self.text[:j + 1] + "\n" + ins.rstrip() + "\n" + self.text[j + 1:]
 
+    def _block_of(self, pattern, nth, what):
+        x = self._find(pattern, nth, what)
+        m = self._masked()
+        ob = m.find("{", x.end() - 1 if m[x.end() - 1] == "{" else x.end())
+        if ob < 0:
+            raise Undecided("%s: no block after /%s/" % (self.desc, pattern))
+        return ob, match_brace(m, ob)
+
+    def after_block(self, pattern, ins, nth=1):
+        """Insert right after the closing brace of the block opened at (or after) the nth match."""
+        ob, cb = self._block_of(pattern, nth, "after_block")
+        self.text = self.text[:cb + 1] + " " + ins.strip() + "\n" + self.text[cb + 1:]
+
+    def at_block_end(self, pattern, ins, nth=1):
+        """Insert just before the closing brace of the block opened at (or after) the nth match."""
+        ob, cb = self._block_of(pattern, nth, "at_block_end")
+        self.text = self.text[:cb] + "\n" + ins.rstrip() + "\n" + self.text[cb:]
+
+    def at_block_start(self, pattern, ins, nth=1):
+        ob, cb = self._block_of(pattern, nth, "at_block_start")
+        self.text = self.text[:ob + 1] + "\n" + ins.rstrip() + "\n" + self.text[ob + 1:]
+
     def all_before(self, pattern, ins, expect=None):
         """Insert before *every* line matching pattern (hint placement robust to edits)."""
         m = self._masked()
